@@ -39,6 +39,11 @@ CLAIMS = {
   'design_ref': 'DESIGN.md section 4 / C18',
   'note': 'Trusted: asyncio task/callback model, asyncio.sleep not returning early (wall-clock "not before" is not decided), lazy-initialisation model of the requests dictionary; distinctness holds while fewer than 2^32-2 tickets are drawn during the life of a request. Three defects found and fixed (1b561b1, 818ac00, a6e3714).',
  },
+ 'C19': {
+  'text': 'Proof. 17 room handlers and 4 user handlers are executed symbolically on a replica of unknown size: rooms and users are dictionaries with lazy initialisation, user/member/operator collections are z3 sets, tickers a z3 array with a domain set, all names symbolic strings. For each handler the post-state of the addressed room (every component) is proved equal to one step of the abstract fold written from the property statement (join adds, leave removes, grant adds, revoke removes incl. operator, lists replace, own grant/revoke act on the logged-in user), rooms and users not named by the message are never touched (frame), the event carries the room and user of the message, and block filters query the right kind and suppress the event (private messages stay acknowledged). Replica equality after ANY sequence follows by induction on the sequence; the suite checks each handler once from an empty model.',
+  'design_ref': 'DESIGN.md section 4 / C19',
+  'note': 'Trusted: lazy-initialisation model of the dictionaries, uniqueness of the user object per name (list of users abstracted to a set of names, with a no-duplicate obligation), fold table in contracts/C19.py. JoinRoom.Response and RoomTickers.Response loops only as BOUNDED stand-ins (list length <= 2, not counted as proved); RoomList and PrivilegedUsers (loops over the whole replica) are not under contract. One defect found and fixed (07783d7).',
+ },
 }
 
 NA_DEFAULT = 'check not built yet (work in progress; see DESIGN.md section 4 for the planned contracts)'
